@@ -36,6 +36,7 @@ pub struct FnSpec {
     pub generics: Option<String>,
     pub no_iter: bool,
     pub opts: BTreeSet<String>,
+    pub subst: Vec<(String, String)>, // @lift only: free place expression of the enclosing fn => parameter of the lifted fn
     pub line: usize,
 }
 
@@ -66,6 +67,8 @@ pub enum Item {
     Impl { file: String, head: String, hdr: Option<String>, fns: Vec<FnSpec>, extra: String },
     Lift(LiftSpec),
     Const { file: String, name: String, ensures: String, props: Vec<String>, line: usize },
+    /// `@callorder file Type::fn as name(calleeA, calleeB)`: positions of calls in the fn body as spec fns + a proof fn with @ensures
+    CallOrder { file: String, path: String, name: String, callees: Vec<String>, f: FnSpec },
     Derive { file: String, names: Vec<String> },
 }
 
@@ -165,9 +168,9 @@ pub fn preprocess(text: &str, dir: &std::path::Path, depth: usize) -> Result<Str
                 match is_directive(l) {
                     Some(("unit", _)) | Some(("serves", _)) => continue,
                     Some(("prelude", a)) => { flush(&mut buf, &mut pending_fn, &mut out); out.push_str(&format!("@prelude {}\n", a)); }
-                    Some((d, _)) if matches!(d, "fn" | "lift" | "raw" | "spec" | "type" | "impl" | "endimpl" | "const" | "derive" | "use" | "enum-eq" | "path-map" | "type-map" | "method-map" | "assume" | "not-under-contract" | "stub-eq" | "trusted-allow" | "strlit") => {
+                    Some((d, _)) if matches!(d, "fn" | "lift" | "callorder" | "raw" | "spec" | "type" | "impl" | "endimpl" | "const" | "derive" | "use" | "enum-eq" | "path-map" | "type-map" | "method-map" | "assume" | "not-under-contract" | "stub-eq" | "trusted-allow" | "strlit") => {
                         flush(&mut buf, &mut pending_fn, &mut out);
-                        pending_fn = matches!(d, "fn" | "lift");
+                        pending_fn = matches!(d, "fn" | "lift" | "callorder");
                         buf.push(l.to_string());
                     }
                     _ => buf.push(l.to_string()),
@@ -204,6 +207,7 @@ pub fn parse(text: &str) -> Result<Unit, String> {
             Item::Fn(f) => Some(f),
             Item::Impl { fns, .. } if in_impl => fns.last_mut(),
             Item::Lift(l) => Some(&mut l.f),
+            Item::CallOrder { f, .. } => Some(f),
             _ => None,
         }
     }
@@ -283,6 +287,16 @@ pub fn parse(text: &str) -> Result<Unit, String> {
                 unit.items.push(Item::Lift(LiftSpec { file: file.to_string(), path: path.trim().to_string(), binder: binder.trim().to_string(), sig: format!("{} {}", sig.trim(), body.trim()), f }));
                 ctx = Ctx::Lift;
             }
+            "callorder" => {
+                // @callorder file Type::fn as name(calleeA, calleeB, ..)
+                let (file, rest) = a.split_once(char::is_whitespace).ok_or(format!("line {ln}: @callorder file path as name(..)"))?;
+                let (path, sig) = rest.trim().split_once(" as ").ok_or(format!("line {ln}: @callorder .. as name(callees)"))?;
+                let callees = paren_arg(sig, sig.split('(').next().unwrap_or("").trim()).ok_or(format!("line {ln}: @callorder .. as name(callees)"))?;
+                let name = sig.split('(').next().unwrap_or("").trim().to_string();
+                let f = FnSpec { ret_name: "r".into(), line: ln, file: file.to_string(), path: path.trim().to_string(), ..Default::default() };
+                unit.items.push(Item::CallOrder { file: file.to_string(), path: path.trim().to_string(), name, callees: split_top(&callees, ','), f });
+                ctx = Ctx::Lift;
+            }
             // ---- sub-directives
             sub => {
                 if let Ctx::Type = ctx {
@@ -358,6 +372,10 @@ pub fn parse(text: &str) -> Result<Unit, String> {
                     "letsplit" => f.letsplit.extend(a.split_whitespace().map(String::from)),
                     "refop" => f.refop.extend(a.split_whitespace().map(String::from)),
                     "no-canary" => f.no_canary.extend(a.split_whitespace().map(String::from)),
+                    "subst" => {
+                        let (x, y) = a.split_once("=>").ok_or(format!("line {ln}: @subst PLACE => EXPR"))?;
+                        f.subst.push((x.trim().to_string(), y.trim().to_string()));
+                    }
                     _ => return Err(format!("line {ln}: unknown directive @{sub}")),
                 }
             }
